@@ -452,4 +452,20 @@ example : (Checked.remI64 Checked.sEvalMod 1 0).isPanic = true := by decide
 example : (Checked.caseOrPanic (α := Expr) Checked.sCloneUnreachable Checked.nCloneExpr ['N', 'o', 'p', 'e']
     (.ok .nil)).isPanic = true := by decide
 
+-- the checked `matchExactRegex` computes what the total model of C11 computes (samples through the
+-- capture / alternate / literal cases, the three concatenation strategies and a character class)
+section
+open Rx
+private def lit (s : List Nat) : Regex := .mk .literal 0 s []
+private def anchored (inner : List Regex) : Regex :=
+  .mk .concat 0 [] (.mk .beginText 0 [] [] :: inner ++ [.mk .endText 0 [] []])
+example : Checked.matchExactTree (anchored []) = .ok (matchExactTree (anchored [])) := by rfl
+example : let t := anchored [.mk .capture 0 [] [.mk .alternate 0 [] [lit [97], lit [98, 99]]], lit [100]]
+    Checked.matchExactTree t = .ok (matchExactTree t) := by rfl
+example : let t := anchored [lit [100], .mk .alternate 0 [] [lit [97], lit [98, 99]]]
+    Checked.matchExactTree t = .ok (matchExactTree t) := by rfl
+example : let t := anchored [.mk .charClass 0 [97, 99, 120, 121] [], .mk .alternate 0 [] [lit [49], lit [50], lit [51]]]
+    Checked.matchExactTree t = .ok (matchExactTree t) := by rfl
+end
+
 end InfluxQL.C13
